@@ -2,6 +2,7 @@ package main
 
 import (
 	"fmt"
+	"go/token"
 	"go/types"
 	"sort"
 	"strings"
@@ -212,7 +213,28 @@ var cellTypes = map[int]types.Type{}
 
 // enterLoopHeader returns true when the path must stop (back edge closed by the invariant or unwinding bound hit).
 func (e *Engine) enterLoopHeader(st *State, fr *Frame, h *ssa.BasicBlock, ord int) bool {
-	inv := e.findContract(fr.fn, fmt.Sprintf("loop%d_inv", ord))
+	// the invariant may be written in parts (vc_<F>_loop<N>_inv, vc_<F>_loop<N>_inv_<part>, ...): their conjunction is
+	// assumed, each part is its own obligation
+	var invs []*ssa.Function
+	for _, iv := range e.findContracts(fr.fn, fmt.Sprintf("loop%d_inv", ord)) {
+		if rest := strings.TrimPrefix(iv.Name(), e.stemFor(fr.fn)+fmt.Sprintf("loop%d_inv", ord)); rest == "" || strings.HasPrefix(rest, "_") {
+			invs = append(invs, iv)
+		}
+	}
+	var inv *ssa.Function
+	if len(invs) > 0 {
+		inv = invs[0]
+	}
+	obligeInv := func(s *State, kind string) {
+		for _, iv := range invs {
+			name := fmt.Sprintf("%s:loop%d", kind, ord)
+			if part := strings.TrimPrefix(iv.Name(), e.stemFor(fr.fn)+fmt.Sprintf("loop%d_inv", ord)); part != "" {
+				name += ":" + strings.TrimPrefix(part, "_")
+			}
+			g := e.evalContract(s, iv, e.bindByName(s, fr, iv), false)
+			e.oblige(s, name, g, iv.Name())
+		}
+	}
 	back := fr.prev != nil && e.loopBody[h][fr.prev]
 	if inv == nil || st.spec {
 		fr.iter[h]++
@@ -233,28 +255,28 @@ func (e *Engine) enterLoopHeader(st *State, fr *Frame, h *ssa.BasicBlock, ord in
 			}
 			// the hook may branch: close the back edge on each of its paths
 			for _, o := range hs {
-				g := e.evalContract(o.st, inv, e.bindByName(o.st, fr, inv), false)
-				e.oblige(o.st, fmt.Sprintf("inv-step:loop%d", ord), g, inv.Name())
+				obligeInv(o.st, "inv-step")
 			}
 			return true
 		}
-		g := e.evalContract(st, inv, e.bindByName(st, fr, inv), false)
-		e.oblige(st, fmt.Sprintf("inv-step:loop%d", ord), g, inv.Name())
+		obligeInv(st, "inv-step")
 		return true
 	}
 	// loop entry: snapshot, establish, havoc, assume
-	for _, p := range inv.Params {
-		if strings.HasPrefix(p.Name(), "pre_") {
-			id, ok := fr.named[strings.TrimPrefix(p.Name(), "pre_")]
-			if !ok {
-				fail("no local for snapshot %s", p.Name())
+	for _, iv := range invs {
+		for _, p := range iv.Params {
+			if strings.HasPrefix(p.Name(), "pre_") {
+				id, ok := fr.named[strings.TrimPrefix(p.Name(), "pre_")]
+				if !ok {
+					fail("no local for snapshot %s", p.Name())
+				}
+				v := st.cells[id]
+				if s, ok := v.(SliceV); ok {
+					s.Arr = st.arrOf(s.Base)
+					v = s
+				}
+				fr.loopPre[p.Name()] = v
 			}
-			v := st.cells[id]
-			if s, ok := v.(SliceV); ok {
-				s.Arr = st.arrOf(s.Base)
-				v = s
-			}
-			fr.loopPre[p.Name()] = v
 		}
 	}
 	if hook := fr.fn.Pkg.Func(fmt.Sprintf("vc_hook_loopentry_%s_%d", contractStem(fr.fn), ord)); hook != nil {
@@ -264,8 +286,7 @@ func (e *Engine) enterLoopHeader(st *State, fr *Frame, h *ssa.BasicBlock, ord in
 		}
 		*st = *hs[0].st
 	}
-	g := e.evalContract(st, inv, e.bindByName(st, fr, inv), false)
-	e.oblige(st, fmt.Sprintf("inv-init:loop%d", ord), g, inv.Name())
+	obligeInv(st, "inv-init")
 	names, heapW, bufW := e.loopWrites(fr.fn, h)
 	for n := range names {
 		id, ok := fr.named[n]
@@ -325,12 +346,20 @@ func (e *Engine) enterLoopHeader(st *State, fr *Frame, h *ssa.BasicBlock, ord in
 		}
 		st.heap[name] = cur
 	}
+	ghostW := e.loopMayWriteGhost(fr.fn, h, fx)
 	for n, id := range st.globals {
 		// ghost variables are advanced by hooks inside the loop
+		if !ghostW {
+			break
+		}
 		if t := cellTypes[id]; t != nil {
+			st.noPre = true // a ghost pointer may well name memory allocated by this call
 			st.cells[id] = st.freshVal(t, "ghost")
+			st.noPre = false
 		} else if sv, ok := st.cells[id].(StructV); ok {
+			st.noPre = true
 			st.cells[id] = st.freshVal(sv.T, "ghost")
+			st.noPre = false
 		} else if tt, ok := st.cells[id].(*Term); ok {
 			st.cells[id] = Sym(fresh("ghost"), tt.W)
 		}
@@ -355,12 +384,14 @@ func (e *Engine) enterLoopHeader(st *State, fr *Frame, h *ssa.BasicBlock, ord in
 	fr.inLoop[h] = true
 	st.cut = true
 	st.raiseWatermark()
-	invArgs := e.bindByName(st, fr, inv)
-	a := e.evalContract(st, inv, invArgs, true)
-	st.assumeT(a)
-	for _, v := range invArgs {
-		if t, ok := v.(*Term); ok && t.W == 64 && !t.IsConst() {
-			st.instantiateLoose(t) // loop counters and bounds named by the invariant
+	for _, iv := range invs {
+		invArgs := e.bindByName(st, fr, iv)
+		a := e.evalContract(st, iv, invArgs, true)
+		st.assumeT(a)
+		for _, v := range invArgs {
+			if t, ok := v.(*Term); ok && t.W == 64 && !t.IsConst() {
+				st.instantiateLoose(t) // loop counters and bounds named by the invariant
+			}
 		}
 	}
 	if !e.inc.Sat(st.pc) {
@@ -650,7 +681,6 @@ func (e *Engine) vspecCall(st *State, fr *Frame, name string, args []Val) ([]Out
 	return nil, false
 }
 
-
 func (e *Engine) installUnfold(st *State) {
 	validHook = func(c *Term) bool { return e.valid(st, c) }
 	unfoldHook = func(p Piece) ([]alt, bool) {
@@ -673,7 +703,6 @@ func (e *Engine) installUnfold(st *State) {
 	}
 }
 
-
 // eqBytes: same length and same contents (extensional; trivial when both views read the same array at the same offset).
 func (e *Engine) eqBytes(st *State, a, b SliceV) *Term {
 	arrA, arrB := a.Arr, b.Arr
@@ -688,7 +717,6 @@ func (e *Engine) eqBytes(st *State, a, b SliceV) *Term {
 	}
 	return And(Eq(a.Len, b.Len), contentEq(arrA, a.Off, arrB, b.Off, a.Len))
 }
-
 
 // instantiateAtReads: the body of a skolemised quantified goal read memory at these places; the active quantified
 // hypotheses about the same memory are instantiated there (into the real state the goal is evaluated from).
@@ -833,4 +861,50 @@ func liftInner(t *Term) *Term {
 		return Not(args[0])
 	}
 	return finish(&Term{Op: t.Op, Args: args, W: t.W, Sort: t.Sort})
+}
+
+// loopMayWriteGhost: ghost variables are written by hooks only. A loop can change them if a loop-step hook is
+// attached to it or to a loop nested in it, or if its body makes a call that can run a hook (a call through a
+// function value, or any call when the package declares call / callback / channel / interface / goroutine hooks
+// or ghost-modifying contracts).
+func (e *Engine) loopMayWriteGhost(fn *ssa.Function, h *ssa.BasicBlock, fx *loopEffects) bool {
+	stem := contractStem(fn)
+	if fn.Pkg == nil {
+		return true
+	}
+	for hb, ord := range e.loopHdr[fn] {
+		if hb == h || e.loopBody[h][hb] {
+			if fn.Pkg.Func(fmt.Sprintf("vc_hook_loopstep_%s_%d", stem, ord)) != nil {
+				return true
+			}
+		}
+	}
+	if fx.dyn || fx.all {
+		return true
+	}
+	hasCallHooks := false
+	for name := range fn.Pkg.Members {
+		if strings.HasPrefix(name, "vc_hook_call_") || strings.HasPrefix(name, "vc_hook_callback_") || strings.HasPrefix(name, "vc_hook_chan_") ||
+			strings.HasPrefix(name, "vc_hook_iface_") || strings.HasPrefix(name, "vc_hook_go_") || strings.HasSuffix(name, "_modifies_ghost") {
+			hasCallHooks = true
+			break
+		}
+	}
+	if !hasCallHooks {
+		return false
+	}
+	// conservative: any call or channel operation in the body may run such a hook
+	for b := range e.loopBody[h] {
+		for _, ins := range b.Instrs {
+			switch ins.(type) {
+			case *ssa.Call, *ssa.Go, *ssa.Defer, *ssa.Send, *ssa.Select:
+				return true
+			case *ssa.UnOp:
+				if u := ins.(*ssa.UnOp); u.Op == token.ARROW {
+					return true
+				}
+			}
+		}
+	}
+	return false
 }
